@@ -114,6 +114,44 @@ def runGauge (g : Gauge) : List (Int × DistData) → Gauge
   | [] => g
   | (now, d) :: rest => runGauge (triggerOrRevert g now d) rest
 
+/-! ## Swap-fee gauges (gauge.go:257-296) -/
+
+/-- a gauge created by pool creation (`ForSwapFee`): `DepositAmount` is what was moved in from the pair's swap-fee collector
+at the previous epoch and is still undistributed; `TotalTriggers` (1) is never looked at, `TriggeredCount` counts epochs -/
+structure SfGauge where
+  deposit     : Int      -- DepositAmount.Amount
+  distributed : Int      -- DistributedAmount.Amount
+  triggered   : Nat      -- TriggeredCount
+  deriving Repr, DecidableEq
+
+/-- outcome of `TransferFundsForSwapFeeDistribution` (liquidity pool.go:671-770): an error, or the coins that arrived in
+the rewards module account (same denomination as the gauge's deposit: a change of `SwapFeeDistrDenom` is not modelled) -/
+inductive Xfer where
+  | err
+  | ok (amount : Nat)
+  deriving Repr, DecidableEq
+
+/-- One pass of the swap-fee branch.  Returns the stored gauge, the coins handed to `doDistributionSends` and the coins
+received.  NOTE the `continue` after a failed transfer (gauge.go:284-287) comes AFTER the distribution and BEFORE
+`SetGauge`: the coins have been paid but the record keeps its `DepositAmount`. -/
+def sfTrigger (g : SfGauge) (d : DistData) (x : Xfer) : Except String (SfGauge × List Int × Int) :=
+  let dist : Except String (Option (SfGauge × List Int)) :=          -- `none` = `continue`
+    if g.deposit > 0 then
+      match d with
+      | .err => .ok none
+      | .ok rs =>
+        if anyNeg rs then .error "negative coin amount"
+        else if sumL rs > g.deposit then .ok none                      -- ErrInvalidCalculatedAMount
+        else .ok (some ({ g with deposit := g.deposit - sumL rs, distributed := g.distributed + sumL rs }, rs))
+    else .ok (some (g, []))
+  match dist with
+  | .error e => .error e
+  | .ok none => .ok (g, [], 0)
+  | .ok (some (g1, sends)) =>
+    match x with
+    | .err => .ok (g, sends, 0)
+    | .ok amt => .ok ({ g1 with deposit := g1.deposit + amt, triggered := g1.triggered + 1 }, sends, amt)
+
 /-- guards of `MsgCreateGauge` (ValidateBasic, then ValidateMsgCreateGauge), `dur`/`minDur` in nanoseconds.
 `total = 0` is refused by `ValidateBasic` (tx.go, "total triggers should be positive").  `aux` stands for the guards
 that do not involve amounts or times: valid gauge type id, app / pool / child pools exist and are enabled, an oracle
@@ -147,6 +185,14 @@ def epochStep (e : Epoch) (now : Int) : Epoch × Bool :=
   else if e.cur + e.dur < now then
     ({ e with count := e.count + 1, cur := e.cur + e.dur }, true)
   else (e, false)
+
+/-- the clock of one duration driven through any sequence of block times; the number says how often the duration's gauges
+were triggered -/
+def runEpoch (e : Epoch) : List Int → Epoch × Nat
+  | [] => (e, 0)
+  | now :: rest =>
+    let r := runEpoch (epochStep e now).1 rest
+    (r.1, r.2 + (if (epochStep e now).2 then 1 else 0))
 
 /-! ## Share computation -/
 
@@ -274,6 +320,7 @@ structure Ledger where
   bal    : Int
   gauges : List Gauge
   exts   : List Ext
+  sfs    : List SfGauge := []
   deriving Repr, DecidableEq
 
 def Ledger.empty : Ledger := { bal := 0, gauges := [], exts := [] }
@@ -313,6 +360,7 @@ inductive BOp where
   | trigger (i : Nat) (now : Int) (d : DistData)       -- gauge `i` reached by `InitateGaugesForDuration`
   | extPay (j : Nat) (pays : List Int)                  -- programme `j` pays its day's rewards
   | extDeactivate (j : Nat)                             -- duration over
+  | sfTrigger (i : Nat) (d : DistData) (x : Xfer)       -- swap-fee gauge `i` reached by `InitateGaugesForDuration`
   deriving Repr
 
 def stepB (l : Ledger) : BOp → Except String Ledger
@@ -337,6 +385,15 @@ def stepB (l : Ledger) : BOp → Except String Ledger
     match l.exts[j]? with
     | none => .ok l
     | some x => .ok { l with exts := setAt l.exts j { x with active := false } }
+  | .sfTrigger i d x =>
+    match l.sfs[i]? with
+    | none => .ok l
+    | some g =>
+      match sfTrigger g d x with
+      | .error e => .error e
+      | .ok (g', sends, recv) =>
+        let (b, _) := sendAll l.bal sends
+        .ok { l with bal := b + recv, sfs := setAt l.sfs i g' }
 
 def runB (l : Ledger) : List BOp → Except String Ledger
   | [] => .ok l
@@ -348,6 +405,7 @@ inductive Op where
   | createGauge (deposit : Int) (total : Nat) (start now dur minDur : Int) (aux : Bool) (funds : Int)
   | createExt (amount : Int) (funds : Int)
   | fund (amount : Int)                 -- anybody may send coins to the module account
+  | createSf                            -- pool creation: a swap-fee gauge with an empty deposit
   | block (ops : List BOp)
   deriving Repr
 
@@ -362,6 +420,7 @@ def step (l : Ledger) : Op → Ledger
       { l with bal := l.bal + amount, exts := l.exts ++ [{ avail := amount, active := true }] }
     else l
   | .fund amount => if 0 ≤ amount then { l with bal := l.bal + amount } else l
+  | .createSf => { l with sfs := l.sfs ++ [{ deposit := 0, distributed := 0, triggered := 0 }] }
   | .block ops =>
     match runB l ops with
     | .ok l' => l'
@@ -381,6 +440,21 @@ def remExts : List Ext → Int
   | [] => 0
   | x :: xs => x.avail + remExts xs
 
+def remSfs : List SfGauge → Int
+  | [] => 0
+  | g :: gs => g.deposit + remSfs gs
+
+/-- the one situation in which the swap-fee branch loses track of coins: the distribution paid something and the transfer
+that follows failed (so `SetGauge` was skipped) -/
+def sfLeak (g : SfGauge) (d : DistData) (x : Xfer) : Bool :=
+  match x, sfTrigger g d x with
+  | .err, .ok (_, sends, _) => decide (sumL sends ≠ 0)
+  | _, _ => false
+
+def bopLeaks (l : Ledger) : BOp → Bool
+  | .sfTrigger i d x => match l.sfs[i]? with | some g => sfLeak g d x | none => false
+  | _ => false
+
 def remActiveGauges : List Gauge → Int
   | [] => 0
   | g :: gs => (if g.active then gaugeRem g else 0) + remActiveGauges gs
@@ -395,5 +469,14 @@ def gaugeOk (g : Gauge) : Bool :=
 
 def custodyOk (bal : Int) (gs : List Gauge) (xs : List Ext) : Bool :=
   decide (remGauges gs + remExts xs ≤ bal) && xs.all (fun x => decide (0 ≤ x.avail)) && gs.all gaugeOk
+
+/-- no swap-fee trigger of the history is a leak (`sfLeak`): evaluated along the run -/
+def noLeakB (l : Ledger) : List BOp → Bool
+  | [] => true
+  | o :: os => !bopLeaks l o && (match stepB l o with | .ok l' => noLeakB l' os | .error _ => true)
+
+def noLeak (l : Ledger) : List Op → Bool
+  | [] => true
+  | o :: os => (match o with | .block ops => noLeakB l ops | _ => true) && noLeak (step l o) os
 
 end Comdex.Gauge
